@@ -852,7 +852,8 @@ addmember(struct structbuilder *b, struct qualtype mt, char *name, int align, un
 			t->size = (width + 7) / 8;
 		}
 	}
-	if (m && t->align < align)
+	/* AAPCS64: the container type of an unnamed or zero-width bit-field aligns the aggregate too */
+	if ((m || width != -1 && targ->bitfieldalign) && t->align < align)
 		t->align = align;
 #ifdef CPROC_VERIF
 	vtrace("{\"e\":\"member\",\"sid\":%llu,\"un\":%d,\"pk\":%d,\"msize\":%llu,\"malign\":%d,\"mflex\":%d,\"mint\":%d,"
